@@ -242,7 +242,8 @@ class ScoOperationsRegistry(AbstractScoOperationsRegistry):
             )
             return InvocationState.FAILED
 
-        return InvocationState.FINISHED
+        # response must contain the same final state as the OperationInvokedReport
+        return execute_result.invocation_state
 
     def start_worker(self):
         """Start worker thread."""
